@@ -198,6 +198,7 @@ inductive Event
   | rewrite (c : Content)
   | print (o : Content)
   | write (p : Path) (o : Content)
+  | writeFailed (p : Path)
   | exec (diff : Bool) (p : Path) (o : Content)
   | ask (named : Bool) (p : Path)
   | aborted
@@ -221,6 +222,9 @@ structure Res where
 structure Env where
   rw : Content → Option Content
   readable : Content → Bool
+  /-- `atomic_write_file(path, …)` succeeds; otherwise it raises `OSError` before anything exists under the
+      target's name (unwritable directory, read-only file system, `<name>.tmp.<pid>` longer than NAME_MAX, …) -/
+  writable : Path → Bool
 
 /-- `m.input_content` (cached). -/
 def getInput (env : Env) (fs : FS) (st : MState) : Except ErrKind (MState × Content × List Event) :=
@@ -275,7 +279,11 @@ def step (env : Env) (a : Action) (fs : FS) (st : MState) (ans : List Str) : Res
         if o = c then ⟨fs, st2, ans, ev ++ ev2, .aborted⟩ else ⟨fs, st2, ans, ev ++ ev2, .done⟩
   | .replace =>
     withOutput env fs st ans fun st1 o ev =>
-      ⟨fs.update st1.cur (.file o false), st1, ans, ev ++ [.write st1.cur o], .done⟩
+      if env.writable st1.cur then
+        ⟨fs.update st1.cur (.file o false), st1, ans, ev ++ [.write st1.cur o], .done⟩
+      else
+        -- OSError out of atomic_write_file: an ordinary exception, collected like any other
+        ⟨fs, st1, ans, ev ++ [.writeFailed st1.cur], .error .io⟩
   | .exit1 => ⟨fs, st, ans, [], .exit1⟩
   | .diff => withOutput env fs st ans fun st1 o ev => ⟨fs, st1, ans, ev ++ [.exec true st1.cur o], .done⟩
   | .exec => withOutput env fs st ans fun st1 o ev => ⟨fs, st1, ans, ev ++ [.exec false st1.cur o], .done⟩
@@ -376,5 +384,42 @@ def main (env : Env) (keep : Bool) (tty : Bool) (opts : List Opt) (fs : FS) (arg
   | .error .optionValueError => ⟨fs, 2, [], none, [], ans⟩
   | .error .exception => ⟨fs, 1, [], none, [], ans⟩
   | .ok acts => processActions env fs acts args ans
+
+/-! ### File names (`_file.Filename._from_filename`)
+
+The tools build `Filename(arg)` for every argument before anything else; a name outside the
+whitelist raises `UnsafeFilenameError` out of `process_actions` (nothing is read or written), and
+`Filename.list` silently drops such directory entries (that is part of `DirEntry.visible`).  This
+whitelist is what makes the unquoted `"%s %s %s" % (command, input, output)` handed to
+`subprocess.call(..., shell=True)` by `action_external_command` (DIFF / EXECUTE) a three-word command. -/
+
+/-- the character class `[a-zA-Z0-9_=+{}/.,~@-]` -/
+def safeChar (c : Char) : Bool :=
+  (97 ≤ c.toNat && c.toNat ≤ 122) || (65 ≤ c.toNat && c.toNat ≤ 90) || (48 ≤ c.toNat && c.toNat ≤ 57) ||
+  c = '_' || c = '=' || c = '+' || c = '{' || c = '}' || c = '/' || c = '.' || c = ',' || c = '~' ||
+  c = '@' || c = '-'
+
+/-- `re.search("(^|/)~", filename)` finds nothing -/
+def noTildeComponent : Str → Bool
+  | [] => true
+  | '~' :: _ => false
+  | s => go s
+where
+  go : Str → Bool
+    | [] => true
+    | '/' :: '~' :: _ => false
+    | _ :: r => go r
+
+/-- `Filename(abspath)` does not raise -/
+def safeName (s : Str) : Bool := !s.isEmpty && s.all safeChar && noTildeComponent s
+
+/-- A whole invocation with named paths: one unsafe argument name refuses the run (after option
+    parsing, before any file is looked at). -/
+def mainNamed (env : Env) (keep : Bool) (tty : Bool) (opts : List Opt) (name : Path → Str) (fs : FS)
+    (args : List Path) (ans : List Str) : Result :=
+  if args.all (fun p => safeName (name p)) then main env keep tty opts fs args ans
+  else match parseOptions keep tty opts with
+    | .error .optionValueError => ⟨fs, 2, [], none, [], ans⟩
+    | _ => ⟨fs, 1, [], none, [], ans⟩
 
 end Pfb.C09
